@@ -1,8 +1,10 @@
 package main
 
 import (
+	"encoding/json"
 	"flag"
 	"fmt"
+	"os"
 	"runtime"
 	"time"
 
@@ -54,6 +56,12 @@ func gossipRuns(id, tier string) []gRun {
 		}
 		for _, t := range topos {
 			for _, origin := range topoNodes[t] {
+				if len(topoNodes[t]) <= 3 && (t != "triangle" || tier == "thorough") {
+					// an awaiting contract that gets confirmed at the origin at any moment of its dissemination: the sealing
+					// vertex overtakes, or is overtaken by, (duplicates of) the transaction messages
+					out = append(out, gRun{fmt.Sprintf("%s/origin=%s/trx-settled", t, origin),
+						gnet.Cfg{Nodes: topoNodes[t], Edges: topologies[t], Origin: origin, Items: "trx-settled", Dup: true, Prop: "C11"}, 40})
+				}
 				for _, it := range items {
 					dup := len(topoNodes[t]) <= 3
 					// the duplicate-suppression window may lapse once per node on the cyclic 4-node graphs (single vertex item)
@@ -103,8 +111,23 @@ func gossipMain(id string, args []string) int {
 	fs := flag.NewFlagSet(id, flag.ExitOnError)
 	procs := fs.Int("procs", runtime.NumCPU(), "worker processes")
 	run := fs.String("run", "", "only this run")
+	replay := fs.String("replay", "", "replay a violation file")
 	fs.Parse(args)
 	runs := gossipRuns(id, common.Tier())
+	if *replay != "" {
+		// the run may belong to the other tier's list
+		seen := map[string]bool{}
+		var all []gRun
+		for _, t := range []string{"quick", "thorough"} {
+			for _, r := range gossipRuns(id, t) {
+				if !seen[r.name] {
+					seen[r.name] = true
+					all = append(all, r)
+				}
+			}
+		}
+		return gossipReplay(id, all, *replay)
+	}
 	if fs.NArg() >= 1 && fs.Arg(0) == "worker" {
 		space.Opt.KeyFunc = world.KeyFunc
 		space.WorkerMainMulti(func(tag string) space.Model {
@@ -141,6 +164,7 @@ func gossipMain(id string, args []string) int {
 		total.Events += st.Events
 		total.Blocked += st.Blocked
 		total.Diverged += st.Diverged
+		total.Unconfirmed = append(total.Unconfirmed, st.Unconfirmed...)
 		if st.DepthDone > total.DepthDone {
 			total.DepthDone = st.DepthDone
 		}
@@ -173,4 +197,64 @@ func gossipMain(id string, args []string) int {
 		return 2
 	}
 	return rep.Finish()
+}
+
+// gossipReplay re-executes the event path of a violation artefact twice on the current tree.
+func gossipReplay(id string, runs []gRun, path string) int {
+	b, err := os.ReadFile(path)
+	if err != nil {
+		fmt.Fprintln(os.Stderr, err)
+		return 2
+	}
+	var v struct {
+		Key     string
+		Witness struct {
+			Run     string   `json:"run"`
+			Path    []string `json:"path"`
+			Choices []int    `json:"choices"`
+		}
+	}
+	if err := json.Unmarshal(b, &v); err != nil {
+		fmt.Fprintln(os.Stderr, err)
+		return 2
+	}
+	for _, r := range runs {
+		if r.name != v.Witness.Run {
+			continue
+		}
+		space.Opt.KeyFunc = world.KeyFunc
+		m := gnet.New(r.cfg)
+		m.Setup()
+		var keys []string
+		found := false
+		for k := 0; k < 2; k++ {
+			res := space.Expand(m, space.Job{Path: v.Witness.Path, Choices: v.Witness.Choices, Replay: true})
+			if res.Err != "" {
+				fmt.Println("replay failed:", res.Err)
+				return 2
+			}
+			keys = append(keys, res.Succs[0].Key)
+			for _, vv := range res.Violations {
+				fmt.Printf("replay %d: %s: %s\n", k, vv.Key, vv.What)
+				if vv.Key == v.Key || id+"/"+vv.Key == v.Key {
+					found = true
+				}
+			}
+		}
+		if keys[0] != keys[1] {
+			fmt.Println("replay is not deterministic")
+			return 2
+		}
+		if os.Getenv("VERIF_TRACE") != "" {
+			fmt.Println(m.Describe())
+		}
+		if found {
+			fmt.Printf("VIOLATION property=%s replay=%s\n", id, path)
+			return 1
+		}
+		fmt.Println("violation did not reproduce on the current tree")
+		return 0
+	}
+	fmt.Fprintln(os.Stderr, "run not found:", v.Witness.Run)
+	return 2
 }
